@@ -45,6 +45,7 @@ UNITS = {
     "reversal": dict(tpl="reversal.rs.tpl", doc="methods::{UpperReversalSignal, LowerReversalSignal, ReversalSignal}"),
     "window_serde": dict(tpl="window_serde.rs.tpl", doc="Window's hand-written Deserialize checks + snapshot round trip"),
     "ma_laws": dict(tpl="ma_laws.rs.tpl", doc="C15 laws over the SMA/WMA definitions and the EMA recurrence; MovingAverage trait facts for SMA/WMA/EMA"),
+    "ma_laws2": dict(tpl="ma_laws2.rs.tpl", variants=False, doc="C15 affine equivariance for the remaining kinds (SWMA, LinReg, VWMA, Conv definitions; RMA, WSMA, DMA, TMA, DEMA, TEMA, TRIMA, HMA as relational one-step lemmas); VWMA/Conv range for non-negative weights"),
     "converters": dict(tpl="converters.rs.tpl", doc="methods::{CollapseTimeframe<Candle>, Renko, RenkoOutput}"),
     "ind_rsi": dict(tpl="ind_rsi.rs.tpl", doc="indicators::RelativeStrengthIndex (generic in the moving-average constructor)"),
     "ind_channels": dict(tpl="ind_channels.rs.tpl", doc="indicators::{DonchianChannel, PriceChannelStrategy, BollingerBands}"),
@@ -239,14 +240,16 @@ PROPS["C08"] = dict(
            "point) and a proof fn <method>_const_step shows that next(v) from a constant state returns the constant output and stays in that state; "
            "one inductive step, verified over the contracts (exact for selections and indices, equality over reals for arithmetic outputs). "
            "Prefix invariance follows because k leading copies leave the same abstract state as new."),
-    assumptions=[REALS, "indicator-level constancy (an indicator initialised with a candle and fed that candle) is PROVED for twenty-four of the 36 indicators - MACD, Envelopes, KeltnerChannel, DetrendedPriceOscillator, MomentumIndex, "
+    assumptions=[REALS, "indicator-level constancy (an indicator initialised with a candle and fed that candle) is PROVED for 33 of the 36 indicators - MACD, Envelopes, KeltnerChannel, DetrendedPriceOscillator, MomentumIndex, "
                  "TrueStrengthIndex, SMIErgodicIndicator, KnowSureThing, DonchianChannel, PriceChannelStrategy, BollingerBands, ChandeMomentumOscillator, KlingerVolumeOscillator, EaseOfMovement, EldersForceIndex, "
-                 "RelativeStrengthIndex, CommodityChannelIndex, WoodiesCCI, ChaikinMoneyFlow (positive volume), StochasticOscillator, IchimokuCloud, AverageDirectionalIndex (ordered candle; lemma only, init not linked), "
-                 "Kaufman, FisherTransform (values; non-zero price): `init` is verified to establish a const_state predicate and a proof fn <indicator>_const_step shows that one step on the same "
+                 "RelativeStrengthIndex, CommodityChannelIndex, WoodiesCCI, ChaikinMoneyFlow (positive volume), StochasticOscillator, IchimokuCloud, AverageDirectionalIndex (ordered candle), "
+                 "Kaufman, FisherTransform (values; non-zero price), Trix, CoppockCurve (non-zero price), AwesomeOscillator, Aroon, HullMovingAverage, MoneyFlowIndex, ChandeKrollStop (ordered candle), "
+                 "PivotReversalStrategy (the same signal on every step) and ParabolicSAR (non-negative acceleration step, low <= high; SAR and trend constant from the first step, the signal reports the "
+                 "initial trend on the first candle only - the documented exemption): `init` is verified to establish a const_state predicate and a proof fn <indicator>_const_step shows that one step on the same "
                  "candle returns the constant outputs (no signal) and stays in that state; for the generic ones this holds for averaging kinds that cannot overshoot (11 of the crate's 15 kinds, unit ma_instance). "
-                 "Not proved: Aroon, AwesomeOscillator, ChandeKrollStop, CoppockCurve, HullMovingAverage, MoneyFlowIndex, PivotReversalStrategy, Trix, TrendStrengthIndex (NaN on a flat window), "
-                 "and the exempt ChaikinOscillator / ParabolicSAR; two concrete bounded Kani harnesses (Trix, RelativeVigorIndex on one candle) stand in; the RVI one is a listed known finding. A native sweep of all 36 default "
-                 "configurations on one repeated candle (not evidence) showed only the exempt ones (ChaikinOscillator with the cumulative ADI, ParabolicSAR's first step) and RVI changing",
+                 "The embedded pivot detectors are covered by reversal_const_step (a constant stream that starts with the construction value never fires). "
+                 "Not proved: TrendStrengthIndex (0/0 on a flat window), RelativeVigorIndex (listed known finding, bounded Kani harness) and ChaikinOscillator (exempt: cumulative ADI by default). "
+                 "A native sweep of all 36 default configurations on one repeated candle (not evidence) showed only the exempt ones (ChaikinOscillator with the cumulative ADI, ParabolicSAR's first step) and RVI changing",
                  "methods without a *_const_step lemma in coverage.samples/functions are not covered"],
 )
 PROPS["C10"] = dict(
@@ -413,7 +416,7 @@ PROPS["C18"] = dict(
 )
 
 PROPS["C15"] = dict(
-    verus=["ma_laws", "sma", "wma", "ema", "smm", "ma_instance", "ma_dispatch", "compose_ma", "swma", "derived_window"],
+    verus=["ma_laws", "ma_laws2", "sma", "wma", "ema", "smm", "ma_instance", "ma_dispatch", "compose_ma", "swma", "derived_window", "lin_reg", "conv", "vwma"],
     claim=("Lemmas over the definitions the code is tied to by C02/C03: SMA and WMA (weights (i+1)/(n(n+1)/2), non-negative, summing to 1) are "
            "affine-equivariant (any a, b, negative a included), range-preserving and additive (superposition) for every length; the EMA recurrence is "
            "affine-equivariant, range-preserving (0 < alpha <= 1) and additive step by step, which carries over to DMA/TMA/RMA/WSMA by composition. "
@@ -421,9 +424,13 @@ PROPS["C15"] = dict(
            "SMM: range preservation (smm_range: the median lies between the bounds of the window values) over the verified median contract. "
            "Range preservation as a one-step fact (every value the instance holds and every output stay within the bounds of the inputs) is proved in unit ma_instance for SMA, WMA, RMA, EMA, DMA, TMA, WSMA, SMM, SWMA, "
            "TRIMA and Vidya and lifted to the dispatch enum MAInstance; HMA, DEMA, TEMA and LinReg are not range-preserving (they extrapolate) and are marked so. "
-           "That the `MA` wrapper behaves like the kind it names (init builds that kind with that length, next steps it, distinct kinds have distinct type tags) is unit ma_dispatch."),
-    assumptions=[REALS, "affine equivariance and superposition are proved for SMA, WMA and the EMA recurrence only; for the other kinds only range preservation (ma_instance) is machine-checked",
-                 "VWMA and Conv (weights supplied by the caller) have no law lemmas"],
+           "That the `MA` wrapper behaves like the kind it names (init builds that kind with that length, next steps it, distinct kinds have distinct type tags) is unit ma_dispatch. "
+           "Unit ma_laws2 extends affine equivariance (any a, b; negative a included) to the other kinds: as identities over the definitions the step contracts return for SWMA, LinReg, "
+           "VWMA (in the prices, for fixed volumes, wherever the volume sum is non-zero) and Conv (any weights with non-zero sum), and in metamorphic form for RMA, WSMA, DMA, TMA, DEMA, TEMA, TRIMA and HMA: "
+           "two instances whose stored values are related by x -> a*x+b, stepped on x and a*x+b, stay related and their outputs are related (one inductive step over the step contracts). "
+           "VWMA with non-negative volumes and Conv with non-negative weights stay within the range of the values in the window (vwma_range, conv_range)."),
+    assumptions=[REALS, "superposition is proved for SMA, WMA and the EMA recurrence only; affine equivariance of SMM (median) and Vidya (scale-free adaptive factor) is NOT proved: for these two only range preservation (ma_instance) is machine-checked",
+                 "the impulse-response profile is the weight profile of the definitions (SMA 1/n, WMA (i+1)/tri(n), SWMA triangular, Conv the caller's weights); it is not re-derived by feeding an impulse"],
 )
 PROPS["C13"] = dict(
     verus=["window_serde", "window", "smm_serde"], kani=["window"],
